@@ -402,7 +402,9 @@ def separation_lower_bound(a, b, n):
 
 def _refine_width(a, b, n, best, step):
   """Pattern search on the unit sphere for a local minimum of w(n) = h_a(n) + h_b(-n)."""
-  while step > 1e-10:
+  it = 0
+  while step > 1e-10 and it < 400:
+    it += 1
     t1 = np.cross(n, [1.0, 0, 0] if abs(n[0]) < 0.9 else [0, 1.0, 0])
     t1 /= np.linalg.norm(t1)
     t2 = np.cross(n, t1)
@@ -411,7 +413,7 @@ def _refine_width(a, b, n, best, step):
     C /= np.linalg.norm(C, axis=1, keepdims=True)
     wc = hsup_many(a, C) + hsup_many(b, -C)
     j = int(np.argmin(wc))
-    if wc[j] < best - 1e-17 * (1 + abs(best)):
+    if wc[j] < best - 1e-13 * (abs(best) + a.scale() * 1e-3):
       best, n = float(wc[j]), C[j]
     else:
       step *= 0.5
